@@ -70,6 +70,9 @@ def invert_flag_name(flag: str) -> str:
 
     return f"--no-{flag[2:]}"
 '''
+# destructure_overrides (pyproject.toml), transcribed by C17.Model.destructure_overrides: pinned verbatim (docstring dropped)
+DESTRUCTURE_OVERRIDES_SRC = 'def destructure_overrides(toml_data: dict[str, Any]) -> dict[str, Any]:\n    if \'overrides\' not in toml_data[\'mypy\']:\n        return toml_data\n    if not isinstance(toml_data[\'mypy\'][\'overrides\'], list):\n        raise ConfigTOMLValueError(\'tool.mypy.overrides sections must be an array. Please make sure you are using double brackets like so: [[tool.mypy.overrides]]\')\n    result = toml_data.copy()\n    for override in result[\'mypy\'][\'overrides\']:\n        if \'module\' not in override:\n            raise ConfigTOMLValueError(\'toml config file contains a [[tool.mypy.overrides]] section, but no module to override was specified.\')\n        if isinstance(override[\'module\'], str):\n            modules = [override[\'module\']]\n        elif isinstance(override[\'module\'], list):\n            modules = override[\'module\']\n        else:\n            raise ConfigTOMLValueError(\'toml config file contains a [[tool.mypy.overrides]] section with a module value that is not a string or a list of strings\')\n        for module in modules:\n            module_overrides = override.copy()\n            del module_overrides[\'module\']\n            old_config_name = f\'mypy-{module}\'\n            if old_config_name not in result:\n                result[old_config_name] = module_overrides\n            else:\n                for new_key, new_value in module_overrides.items():\n                    if new_key in result[old_config_name] and result[old_config_name][new_key] != new_value:\n                        raise ConfigTOMLValueError(f"toml config file contains [[tool.mypy.overrides]] sections with conflicting values. Module \'{module}\' has two different values for \'{new_key}\'")\n                    result[old_config_name][new_key] = new_value\n    del result[\'mypy\'][\'overrides\']\n    return result'
+
 PREFIX_MAP_SRC = '''
 for a, b in flag_prefix_pairs:
     flag_prefix_map[a] = b
@@ -285,6 +288,14 @@ def extract_config_parser(src: str) -> dict:
         g.body = [b for b in g.body if not (isinstance(b, ast.Expr) and isinstance(b.value, ast.Constant))]
         if ast.unparse(g) != want:
             raise Unsupported(f"{name} no longer has the transcribed shape")
+    dov = ast.parse(ast.unparse(_find(tree, ast.FunctionDef, "destructure_overrides"))).body[0]
+    dov.body = [b for b in dov.body if not (isinstance(b, ast.Expr) and isinstance(b.value, ast.Constant))]
+    if ast.unparse(dov) != DESTRUCTURE_OVERRIDES_SRC:
+        raise Unsupported("destructure_overrides no longer has the transcribed shape")
+    pcf = ast.unparse(_find(tree, ast.FunctionDef, "parse_config_file"))
+    for needle in ["for glob in globs.split(','):", "options.per_module_options[glob] = updates", "for name, section in parser.items():\n        if name.startswith('mypy-'):"]:
+        if needle not in pcf:
+            raise Unsupported(f"parse_config_file changed: missing `{needle}`")
     pv = ast.unparse(_find(tree, ast.FunctionDef, "parse_version"))
     for needle in ["m = re.match('\\\\A(\\\\d)\\\\.(\\\\d+)\\\\Z', str(v))", "if major == 2 and minor == 7:\n        pass", "elif major == 3:\n        if minor < defaults.PYTHON3_VERSION_MIN[1]:",
                    "raise VersionTypeError(msg, fallback=defaults.PYTHON3_VERSION_MIN)", "return (major, minor)"]:
